@@ -291,7 +291,7 @@ func c15Notifier() {
 	keys := []any{"k1", 2, c15KeyT{3}}
 	// ---------------- program ----------------
 	nKeys := simrt.DrawRange(1, 3)
-	nSubs := simrt.DrawRange(1, 5)
+	nSubs := simrt.DrawRange(1, 5+3*(simrt.Scale()-1))
 	var chans []*c15Chan
 	var subs []*c15Sub
 	pairs := map[[2]int]bool{} // (key, channel id) pairs in the plan
@@ -353,7 +353,7 @@ func c15Notifier() {
 	if c15PublishNil && simrt.Chance(1, 3) {
 		nilLeft = 1 // at most one nil publish per run, so that a received nil is attributable
 	}
-	nPubTasks := simrt.DrawRange(1, 3)
+	nPubTasks := simrt.DrawRange(1, 3+simrt.Scale()-1)
 	pubTasks := make([][]*c15Pub, nPubTasks)
 	var pubs []*c15Pub
 	for t := range pubTasks {
